@@ -56,6 +56,10 @@ def _install():
         ifi.open = fs.open
         ofi.open = fs.open
         fi.base64 = b64.B64
+        fi.len = b64.model_len
+        ifi.len = b64.model_len
+        ofi.len = b64.model_len
+        ifi.os = fs
         import playback.utils.timing_utils as tu
         tu.time = lambda: 0
     return fs, fi
@@ -69,9 +73,9 @@ def _limit(kind, lim_n):
     return quiet.num(lim_n, d), (lim_n, d)
 
 
-def handler_decision(n: int, lim_n: int, mode: int, falsy: int) -> bool:
+def handler_decision(n: int, lim_n: int, mode: int, falsy: int, stale: int) -> bool:
     """
-    pre: 0 <= n < 2 ** 53 and 0 <= lim_n and 0 <= mode <= 2 and 0 <= falsy <= 2
+    pre: 0 <= n < 2 ** 53 and 0 <= lim_n and 0 <= mode <= 2 and 0 <= falsy <= 2 and 0 <= stale <= 2
     post: _
     """
     # the handlers called directly: who reads the file, what is recorded, and what restore gives back
@@ -83,9 +87,9 @@ def handler_decision(n: int, lim_n: int, mode: int, falsy: int) -> bool:
     mode = ctx.pick(mode, (0, 1, 2))
     falsy = ctx.pick(falsy, (0, 1, 2))
     kind = ctx.S('limit')
-    content = b64.Content(1)
+    content = b64.Content(1, quiet.Q(n, 1))
     if ctx.REAL:
-        return _real_decision(n, lim_n, mode, falsy, kind)
+        return _real_decision(n, lim_n, mode, falsy, kind, ctx.pick(stale, (0, 1, 2)))
     fs.put('/data/f', content, size=quiet.Q(n, 1))
     if kind == 'env':
         fs.environ = {'PLAYBACK_INTERCEPTED_FILE_SIZE_LIMIT': ctx.S('env')} if ctx.S('env') is not None else {}
@@ -109,7 +113,7 @@ def handler_decision(n: int, lim_n: int, mode: int, falsy: int) -> bool:
     else:
         recorded = h.prepare_output_for_recording('key', args, kwargs)
     above = n * expected[1] > expected[0] * 1048576
-    reads = [p for p, m in fs.opens if 'r' in m]
+    reads = [p for p, m in fs.opens if 'r' in m and m != 'os.open']
     ok = recorded['file_path'] == '/data/f'
     if above:
         ctx.mark('above-limit')
@@ -117,8 +121,13 @@ def handler_decision(n: int, lim_n: int, mode: int, falsy: int) -> bool:
     else:
         ctx.mark('within-limit')
         ok = ok and reads == ['/data/f'] and isinstance(recorded['file_content'], b64.Encoded)
-    # restore
+    # restore - onto a path where a stale file (other content, other or same size) already sits
     fs.files, fs.sizes, fs.mtimes, fs.opens = [], [], [], []
+    stale_kind = ctx.pick(stale, (0, 1, 2))
+    if stale_kind == 1 and n == 0:
+        return ctx.done(True)        # two empty files are the same file content: no distinct stale file of size 0 exists
+    if stale_kind:
+        fs.put('/data/f', b64.Content('stale'), size=quiet.Q(n, 1) if stale_kind == 1 else quiet.Q(n + 7, 1))
     if is_input:
         out = h.restore_input_from_recording(recorded, args, kwargs)
         ok = ok and out == '/data/f' and fs.find('/data/f') >= 0
@@ -134,7 +143,7 @@ def handler_decision(n: int, lim_n: int, mode: int, falsy: int) -> bool:
     return ctx.done(ok, 'above-limit')
 
 
-def _real_decision(n, lim_n, mode, falsy, kind):
+def _real_decision(n, lim_n, mode, falsy, kind, stale=0):
     """replay on the real code: a real temp file of n bytes (n is capped at 8 MiB for the replay), real os/base64"""
     import tempfile
     import shutil
@@ -173,6 +182,9 @@ def _real_decision(n, lim_n, mode, falsy, kind):
             h.prepare_output_for_recording('key', args, kwargs)
         above = n * expected[1] > expected[0] * 1048576
         os.remove(path)
+        if stale:
+            with open(path, 'wb') as f:      # a stale file of the same size / 7 bytes longer at the restore path
+                f.write(b'S' * (n if stale == 1 else n + 7))
         if is_input:
             h.restore_input_from_recording(recorded, args, kwargs)
             got = open(path, 'rb').read()
